@@ -593,6 +593,110 @@ std::string build_codec_case(const std::string &kind_in) {
   return build_codec17(thorough);
 }
 
+// ---- concurrent programs (C08 linearizability, C09 progress, C04 batch atomicity under concurrency) ----
+std::string build_conc_case(const std::string &kind_in) {
+  bool thorough = kind_in.find("-thorough") != std::string::npos;
+  std::string kind = kind_in.substr(0, kind_in.find('-'));
+  bool c09 = kind == "C09", c04 = kind == "C04c";
+  int len = *rc::gen::withSize([&](int size) { return rc::gen::just(size); });
+  std::vector<std::string> lines;
+  // tiny programs for bounded-exhaustive schedule enumeration (shared keys, complete linearizability search)
+  if (kind == "C08" && chance(8)) {
+    lines.push_back(fmt("config wbs=65536 sched=replay comp=%d", uni(0, 1)));
+    lines.push_back("dfs");
+    if (chance(50)) lines.push_back("put tx tinit");
+    if (chance(30)) lines.push_back("flush");
+    int cnt = 0;
+    for (int t = 0; t < 2; t++) {
+      int n = uni(1, 2);
+      for (int i = 0; i < n; i++) {
+        int c = uni(0, 99);
+        std::string k = chance(70) ? "tx" : "ty";
+        if (c < 45) lines.push_back(fmt("thread %d put %s tv%d", t, k.c_str(), ++cnt));
+        else if (c < 55) lines.push_back(fmt("thread %d del %s", t, k.c_str()));
+        else if (c < 65) lines.push_back(fmt("thread %d batch p:tx:tv%d p:ty:tv%d", t, cnt + 1, cnt + 1)), cnt++;
+        else if (c < 85) lines.push_back(fmt("thread %d get %s", t, k.c_str()));
+        else if (c < 95) lines.push_back(fmt("thread %d snapget tx ty", t));
+        else lines.push_back(fmt("thread %d scan", t));
+      }
+    }
+    std::string text;
+    for (auto &l : lines) { text += l; text += "\n"; }
+    return text;
+  }
+  std::string cfgl = "config wbs=65536";
+  cfgl += fmt(" bs=%d comp=%d bloom=%d mmap=%d", pick<int>({{1, 1024}, {2, 4096}}), uni(0, 1), pick<int>({{2, 0}, {1, 10}}), uni(0, 1));
+  cfgl += " sched=" + (c09 ? pick<std::string>({{3, "random"}, {3, "pct"}, {4, "starved"}, {1, "eager"}}) : pick<std::string>({{5, "random"}, {3, "pct"}, {1, "starved"}, {1, "eager"}}));
+  cfgl += fmt(" pctd=%d pctlen=%d", uni(1, 3), pick<int>({{1, 500}, {2, 3000}, {1, 20000}}));
+  if (chance(c09 ? 40 : 20)) cfgl += " spur=1";
+  if (chance(25)) cfgl += " rsig=1";
+  lines.push_back(cfgl);
+  int T = std::min(thorough ? 8 : 5, 2 + len / 25 + uni(0, 1));
+  // setup: optionally bring the memtable close to its limit / create level-0 pressure
+  int sc = uni(0, 99);
+  if (sc < (c09 ? 55 : 30)) lines.push_back(fmt("fill 0 %d 1000", uni(50, 62)));
+  else if (sc < (c09 ? 80 : 40)) {
+    int n = uni(3, c09 ? 11 : 6);
+    for (int i = 0; i < n; i++) { lines.push_back(fmt("put tsetup%d r%d.%d", i % 3, uni(0, 9999), uni(10, 400))); lines.push_back("flush"); }
+    if (chance(50)) lines.push_back(fmt("fill 0 %d 1000", uni(50, 62)));
+  }
+  std::vector<int> nkeys(T), counter(T, 0);
+  for (int t = 0; t < T; t++) nkeys[t] = uni(1, 3);
+  auto anykey = [&]() { int t = uni(0, T - 1); return fmt("tT%dk%d", t, uni(0, nkeys[t] - 1)); };
+  auto val = [&](int t) {
+    std::string tok = fmt("tT%dc%d", t, ++counter[t]);
+    int c = uni(0, 99);
+    if (c < 50) return tok;
+    if (c < 85) return tok + fmt("+r%d.%d", uni(0, 9999), uni(10, 1500));
+    return tok + fmt("+r%d.%d", uni(0, 9999), c09 ? uni(9000, 30000) : uni(3000, 12000));
+  };
+  // interleave threads' lines randomly (per-thread order is what matters)
+  int total = 0;
+  std::vector<int> left(T);
+  for (int t = 0; t < T; t++) { left[t] = uni(2, thorough ? 20 : 8); total += left[t]; }
+  // C04/C08 small histories get a complete search: keep a share of them <= 14 operations
+  while (total > 0) {
+    int t = uni(0, T - 1);
+    if (left[t] == 0) continue;
+    left[t]--; total--;
+    int c = uni(0, 99);
+    std::string sync = chance(10) ? " sync=1" : "";
+    int wput = c04 ? 20 : 38, wdel = 8, wbatch = c04 ? 30 : 12, wget = c04 ? 10 : 20, wsnap = c04 ? 20 : 10, wscan = c04 ? 8 : 4, wflush = c09 ? 8 : 3, wcr = c09 ? 5 : 2, wmisc = 3;
+    int tot = wput + wdel + wbatch + wget + wsnap + wscan + wflush + wcr + wmisc;
+    c = uni(0, tot - 1);
+    if ((c -= wput) < 0) lines.push_back(fmt("thread %d put tT%dk%d ", t, t, uni(0, nkeys[t] - 1)) + val(t) + sync);
+    else if ((c -= wdel) < 0) { ++counter[t]; lines.push_back(fmt("thread %d del tT%dk%d", t, t, uni(0, nkeys[t] - 1)) + sync); }
+    else if ((c -= wbatch) < 0) {
+      std::string v = val(t), s = fmt("thread %d batch", t);
+      int n = uni(1, nkeys[t]);
+      for (int k = 0; k < nkeys[t] && n > 0; k++) { if (chance(80)) { s += fmt(" p:tT%dk%d:", t, k) + v; n--; } else if (chance(30)) { s += fmt(" d:tT%dk%d", t, k); n--; } }
+      if (s == fmt("thread %d batch", t)) s += fmt(" p:tT%dk0:", t) + v;
+      lines.push_back(s + sync);
+    }
+    else if ((c -= wget) < 0) lines.push_back(fmt("thread %d get ", t) + anykey());
+    else if ((c -= wsnap) < 0) {
+      std::string s = fmt("thread %d snapget", t);
+      // whole key groups of one or two writers, so batch atomicity is observable
+      int w = uni(0, T - 1);
+      for (int k = 0; k < nkeys[w]; k++) s += fmt(" tT%dk%d", w, k);
+      if (chance(50)) { int w2 = uni(0, T - 1); if (w2 != w) for (int k = 0; k < nkeys[w2]; k++) s += fmt(" tT%dk%d", w2, k); }
+      lines.push_back(s);
+    }
+    else if ((c -= wscan) < 0) lines.push_back(fmt("thread %d scan", t));
+    else if ((c -= wflush) < 0) lines.push_back(fmt("thread %d flush", t));
+    else if ((c -= wcr) < 0) lines.push_back(fmt("thread %d crange %d", t, uni(0, 1)));
+    else lines.push_back(fmt("thread %d %s", t, chance(50) ? "prop" : "approx"));
+  }
+  std::string text;
+  for (auto &l : lines) { text += l; text += "\n"; }
+  return text;
+}
+
+bool is_conc_kind(const std::string &k) {
+  std::string b = k.substr(0, k.find('-'));
+  return b == "C08" || b == "C09" || b == "C04c";
+}
+
 bool is_crash_kind(const std::string &k) {
   std::string b = k.substr(0, k.find('-'));
   return b == "C02" || b == "C03" || b == "C04" || b == "C05" || b == "C12" || b == "C17";
@@ -606,6 +710,10 @@ std::string gen_case(const char *kind, uint64_t seed, int size) {
     std::string hk = k.substr(4);
     Gen<std::string> g4 = rc::gen::exec([hk]() { return build_case(hk); });
     return g4(rc::Random(seed), size).value();
+  }
+  if (is_conc_kind(k)) {
+    Gen<std::string> g5 = rc::gen::exec([k]() { return build_conc_case(k); });
+    return g5(rc::Random(seed), size).value();
   }
   if (is_codec_kind(k)) {
     Gen<std::string> g3 = rc::gen::exec([k]() { return build_codec_case(k); });
